@@ -1103,7 +1103,11 @@ def run_correspondence(ctx):
     for live in range(1, (3 if q else 4) + 1):
         pc += pcm_cases(live, 4, rng, 6 if q else 12)
     pc += pcm_cases(4 if q else 5, 6, rng, 2)
-    F.pmap(ctx, w_pcm, list(chunks(pc, 250)))
+    from props import c07 as C7
+    if C7.roland_scaling_ok():
+        F.pmap(ctx, w_pcm, list(chunks(pc, 250)))
+    else:
+        ctx.note("C02: the scaled-down FAT->links->file->window relation is skipped (the decoder no longer takes the table length from the re-bound module constant); whole images and full-size tables remain")
     # --- the raw-word FAT shortcuts of the whole-image model, and its sparse reader
     base = ctx.seed * 32452843
     F.pmap(ctx, w_rawfat, [[base + j * 100 + i for i in range(6 if q else 40)] for j in range(16 if q else 48)])
